@@ -28,6 +28,7 @@ int main(void)
     int identical = (same_a && KIND == 0 && IN_G == 0) || (same_b && KIND == 1 && IN_G == 1) || (same_c && KIND == 2 && IN_G == 0);
     int clash = (same_a || same_b || same_c) && !identical;
     CHECK(st != 2, "C13: no exception other than the developer error (also after the parser object was moved / its source destroyed)");
+    CHECK(st != 4, "C13: a rejected re-declaration stays rejected when it is repeated (nothing of it is left behind)");
     CHECK((st == 3) == (identical != 0), "C13: declaring the same name with the same kind in the same group again returns the identical object");
     CHECK((st == 1) == (clash != 0), "C13: any other re-declaration of a long name (other kind, other group) is rejected as a developer error, regardless of grouping and of a move of the parser");
     WITNESS_AT(st == 0, "new declaration accepted");
